@@ -427,6 +427,8 @@ func flipCase(c *vlib.Case, kind int) {
 		out := vlib.Tris(res.(*model3d.Mesh))
 		c.Count("calls."+api, 1)
 		c.Nontrivial("flip|" + in.desc)
+		// the receiver is not consumed: its faces (the objects the caller still holds) are as before
+		inputUntouched(c, api, in, extra)
 		t, ok := checkTopo(c, api, in, out, topoOpts{expectV: -1}, extra)
 		if len(out) != len(in.tris) {
 			c.Violationf(api+"/face-count", in.witness(extra), "%d faces, input had %d", len(out), len(in.tris))
